@@ -7,7 +7,7 @@ from hypothesis import strategies as st
 
 from ..driver import Clause, Outcome
 from ..langgen import languages
-from ..modelgen import assoc_class_name, build_language
+from ..modelgen import assoc_class_name, build_language, resolve_spec, corelang_pool
 from ..ref_lang import Lang
 from ..ref_model import RefModel
 from .. import tinylang as T
@@ -369,7 +369,9 @@ class Run:
 
 def check_case(case) -> Outcome:
     out = Outcome()
-    spec = TINY if case.get('spec') is None else case['spec']
+    spec = resolve_spec(case) if case.get('lang') else (TINY if case.get('spec') is None else case['spec'])
+    if spec is None:
+        return out
     try:
         run = Run(spec, out)
     except Exception as e:
@@ -453,6 +455,12 @@ def lang_histories(draw, max_ops=25):
     return {'spec': spec, 'ops': draw(st.lists(_op_strategy(), min_size=1, max_size=max_ops))}
 
 
+@st.composite
+def corelang_histories(draw, max_ops=20):
+    return {'lang': 'corelang', 'pool': draw(corelang_pool(2, 3)),
+            'ops': draw(st.lists(_op_strategy(), min_size=1, max_size=max_ops))}
+
+
 CLAUSES = [
     Clause('short-histories-exhaustive', check_case, kind='exhaustive', enumerate=_enum,
            space='all operation sequences of length <=3 (quick) / <=4 (thorough) over a 17-operation alphabet on the tiny language'),
@@ -460,6 +468,8 @@ CLAUSES = [
            budget={'quick': 1200, 'thorough': 20000}),
     Clause('generated-language-histories', check_case, kind='random', strategy=lambda: lang_histories(25),
            budget={'quick': 600, 'thorough': 8000}),
+    Clause('corelang-histories', check_case, kind='random', strategy=lambda: corelang_histories(20),
+           budget={'quick': 320, 'thorough': 4000}),
     Clause('long-histories', check_case, kind='random', strategy=lambda: tiny_histories(40),
            budget={'quick': 0, 'thorough': 6000}),
 ]
